@@ -18,7 +18,18 @@ type sreplay struct {
 func TestStress(t *testing.T) {
 	r := mon.New("C10")
 	defer r.Flush()
-	n := r.Pick(300, 20000)
+	// thundering herd: concurrent calls with one transaction id; at most one may be admitted
+	for _, fm := range []string{"nclient4", "nclient6"} {
+		rounds := r.Pick(1500, 20000)
+		bad, maxAdm, detail := cstress.Herd(fam(fm), rounds, 8)
+		r.Eval(rounds)
+		r.Count("herd.rounds", rounds)
+		r.Max("herd.max_admitted", int64(maxAdm))
+		if bad > 0 {
+			r.Violate("C10:stress:pending-xid-shared", fmt.Sprintf("%s: in %d of %d rounds more than one call was admitted; %s", fm, bad, rounds, detail), sreplay{-1, fm})
+		}
+	}
+	n := r.Pick(2000, 40000)
 	for i := 0; i < n; i++ {
 		if !r.Mine(i) {
 			continue
